@@ -152,7 +152,12 @@ def main():
     replies = {}
     model_ran = False
     try:
-        out = common.run_model(reqs, shards=12 if a.tier == "thorough" else 4)
+        if hasattr(mod, "local_model"):
+            # the "model" is the set of polynomials the translator traced from the source (the same objects
+            # that were printed into Generated/*.lean), evaluated exactly in Python
+            out = [mod.local_model(r) for r in reqs]
+        else:
+            out = common.run_model(reqs, shards=12 if a.tier == "thorough" else 4)
         replies = dict(zip(idx, out))
         model_ran = True
     except Broken as b:
